@@ -5,6 +5,7 @@ import (
 	"bytes"
 	"encoding/json"
 	"fmt"
+	"net/url"
 	"os/exec"
 	"path/filepath"
 	"strings"
@@ -271,8 +272,11 @@ func runC19(c *Ctx) {
 			{"elements-cyclic", refgraph.Options{Docs: 3, Defs: 2, Elements: true, Cycles: true, RefP: 0.6, Spellings: true, SwaggerOnly: true}},
 			{"http-and-dirs", refgraph.Options{Docs: 5, Defs: 2, Elements: true, Cycles: true, RefP: 0.6, Spellings: true, HTTP: true, SwaggerOnly: true}},
 			{"same-path-twins", refgraph.Options{Docs: 4, Defs: 2, Elements: true, Cycles: true, RefP: 0.6, Spellings: true, Twins: true, SwaggerOnly: true}},
+			// chains of parameter / response references through names that differ only by letter case
+			{"case-twins", refgraph.Options{Docs: 3, Defs: 2, Elements: true, RefP: 0.8, Spellings: true, CaseTwins: true, SwaggerOnly: true}},
+			{"case-twins-cyclic-schemas", refgraph.Options{Docs: 2, Defs: 3, Elements: true, Cycles: true, RefP: 0.8, Spellings: true, CaseTwins: true, SwaggerOnly: true}},
 		}
-		nw := c.N(160, 3000)
+		nw := c.N(480, 6000)
 		var worlds []*refgraph.World
 		var roots []string
 		for i := 0; i < nw; i++ {
@@ -321,6 +325,108 @@ func runC19(c *Ctx) {
 			}
 		}
 	}
+	c19Chains(c)
+}
+
+// c19Chains: a valid root whose operation refers to a parameter and a response of a SECOND document, where each is a
+// chain of references of length 1-3 (well-founded) through names from a pool with case twins, names that need
+// pointer or percent escapes, and documents in other directories / on other hosts. (In the random graphs above a
+// chain mostly starts in the root's own `parameters` section, which the meta-schema does not allow to hold
+// references: those roots are filtered out as invalid.)
+func c19Chains(c *Ctx) {
+	names := []string{"limit", "Limit", "LIMIT", "lim it", "a/b", "a~b", "é", "x.y", "limit2"}
+	seconds := []string{"file:///v/r/params.json", "file:///v/r/shared/params.json", "file:///v/params.json", "http://h.example/api/params.json"}
+	n := c.N(80, 1500)
+	var worlds []*refgraph.World
+	var roots []string
+	for i := 0; i < n; i++ {
+		second := seconds[c.Intn(len(seconds))]
+		root := "file:///v/r/root.json"
+		if strings.HasPrefix(second, "http") {
+			root = "http://h.example/api/root.json"
+		}
+		perm := c.Rng.Perm(len(names))
+		chain := func(section string, final wire.V) (wire.V, string) {
+			k := 1 + c.Intn(3)
+			sec := wire.ObjV()
+			for j := 0; j < k; j++ {
+				name := names[perm[j]]
+				if j == k-1 {
+					sec = sec.Set(name, final)
+				} else {
+					sec = sec.Set(name, wire.ObjV(wire.M("$ref", wire.StrV((&url.URL{Fragment: "/" + section + "/" + refgraph.PtrEscape(names[perm[j+1]])}).String()))))
+				}
+			}
+			return sec, names[perm[0]]
+		}
+		params, p0 := chain("parameters", wire.MustParse(`{"name":"q","in":"query","type":"integer","minimum":1}`))
+		resps, r0 := chain("responses", wire.MustParse(`{"description":"not found","schema":{"type":"object","properties":{"code":{"type":"integer"}}}}`))
+		su, _ := url.Parse(second)
+		ru, _ := url.Parse(root)
+		rel := second
+		if su.Scheme == ru.Scheme && su.Host == ru.Host && c.Coin(0.7) {
+			rel = relPath(ru.Path, su.Path)
+		}
+		frag := func(section, name string) string {
+			return rel + (&url.URL{Fragment: "/" + section + "/" + refgraph.PtrEscape(name)}).String()
+		}
+		op := wire.ObjV(
+			wire.M("parameters", wire.ArrV(wire.ObjV(wire.M("$ref", wire.StrV(frag("parameters", p0)))))),
+			wire.M("responses", wire.ObjV(
+				wire.M("200", wire.ObjV(wire.M("description", wire.StrV("ok")))),
+				wire.M("404", wire.ObjV(wire.M("$ref", wire.StrV(frag("responses", r0))))))))
+		rootDoc := wire.MustParse(`{"swagger":"2.0","info":{"title":"t","version":"1"}}`).Set("paths",
+			wire.ObjV(wire.M("/a", wire.ObjV(wire.M("get", op)))))
+		w := &refgraph.World{Root: root, Docs: map[string]wire.V{root: rootDoc, second: wire.ObjV(wire.M("parameters", params), wire.M("responses", resps))}}
+		worlds = append(worlds, w)
+		roots = append(roots, rootDoc.Text())
+	}
+	rvs, err := validateAll(c, roots)
+	if err != nil {
+		c.Fail(Failure{Kind: "crash", Sig: "C19:validator-unavailable", What: err.Error()})
+		return
+	}
+	var outs []string
+	var jobs []int
+	for i, w := range worlds {
+		if !rvs[i].Valid {
+			c.Fail(Failure{Kind: "crash", Sig: "C19:generator", What: "chain root rejected by the validator: " + rvs[i].Error})
+			continue
+		}
+		c.Count(fmt.Sprint(worldJSON(w)), true)
+		res := expandWorld(w, expOpts{Absolute: i%2 == 0, Skip: i%5 == 4})
+		if res.Err != nil || res.Panic != "" || res.Hang {
+			c.Hit("chain-expand-error")
+			c.Fail(Failure{Kind: "oracle", Sig: "C19:chain-expansion-fails", What: fmt.Sprint("expansion of a well-founded reference chain fails: ", res.Err, res.Panic), Case: map[string]interface{}{"world": worldJSON(w)}})
+			continue
+		}
+		outs = append(outs, res.Out.Text())
+		jobs = append(jobs, i)
+	}
+	ovs, err := validateAll(c, outs)
+	if err != nil {
+		c.Fail(Failure{Kind: "crash", Sig: "C19:validator-unavailable", What: err.Error()})
+		return
+	}
+	for j, wi := range jobs {
+		c.Hit("chain-expand-checked")
+		if !ovs[j].Valid {
+			c.Fail(Failure{Kind: "oracle", Sig: "C19:expand-invalid", What: "valid specification with reference chains in a second document becomes invalid after expand: " + ovs[j].Error,
+				Case: map[string]interface{}{"world": worldJSON(worlds[wi])}, Impl: clip(outs[j])})
+		}
+	}
+}
+
+// relPath: a relative reference from the document at path `from` to the document at path `to` (same site)
+func relPath(from, to string) string {
+	fd := strings.Split(strings.TrimPrefix(from, "/"), "/")
+	fd = fd[:len(fd)-1]
+	tp := strings.Split(strings.TrimPrefix(to, "/"), "/")
+	i := 0
+	for i < len(fd) && i < len(tp)-1 && fd[i] == tp[i] {
+		i++
+	}
+	return strings.Repeat("../", len(fd)-i) + strings.Join(tp[i:], "/")
 }
 
 // duplicateParameters: some parameter list of the root holds two entries that denote the same parameter (e.g.
